@@ -121,85 +121,89 @@ pub struct DiffMismatch {
 
 pub fn output_diff_json(old: &str, new: &str) -> Option<Vec<DiffMismatch>> {
     let text_diff = TextDiff::from_lines(old, new);
-    let grouped_ops = text_diff.grouped_ops(0);
+    let ops = text_diff.ops();
 
-    if grouped_ops.is_empty() {
+    if ops.iter().all(|op| matches!(op, DiffOp::Equal { .. })) {
         return None;
     }
 
-    let mut mismatches = Vec::with_capacity(grouped_ops.len());
+    let mut mismatches = Vec::new();
 
-    for group in grouped_ops {
-        for op in group {
-            match op {
-                DiffOp::Replace {
-                    old_index,
-                    old_len,
-                    new_index,
-                    new_len,
-                } => {
-                    let original = text_diff
-                        .iter_changes(&op)
-                        .filter(|change| matches!(change.tag(), ChangeTag::Delete))
-                        .map(|change| change.value())
-                        .collect();
+    // The line numbers are counted from the lengths of the operations seen so far: the indices
+    // stored in an operation can be stale on the side it does not touch (the `new_index` of a
+    // delete, the `old_index` of an insert) after the diff has been compacted
+    let mut old_position = 0;
+    let mut new_position = 0;
 
-                    let expected = text_diff
-                        .iter_changes(&op)
-                        .filter(|change| matches!(change.tag(), ChangeTag::Insert))
-                        .map(|change| change.value())
-                        .collect();
+    for op in ops.iter().copied() {
+        match op {
+            DiffOp::Replace {
+                old_len, new_len, ..
+            } => {
+                let (old_index, new_index) = (old_position, new_position);
+                old_position += old_len;
+                new_position += new_len;
+                let original = text_diff
+                    .iter_changes(&op)
+                    .filter(|change| matches!(change.tag(), ChangeTag::Delete))
+                    .map(|change| change.value())
+                    .collect();
 
-                    mismatches.push(DiffMismatch {
-                        original_start_line: old_index,
-                        original_end_line: old_index + old_len - 1,
-                        expected_start_line: new_index,
-                        expected_end_line: new_index + new_len - 1,
-                        original,
-                        expected,
-                    });
-                }
-                DiffOp::Delete {
-                    old_index,
-                    old_len,
-                    new_index,
-                } => {
-                    // Collect every deleted line, not only the first one
-                    let original = text_diff
-                        .iter_changes(&op)
-                        .map(|change| change.value())
-                        .collect();
+                let expected = text_diff
+                    .iter_changes(&op)
+                    .filter(|change| matches!(change.tag(), ChangeTag::Insert))
+                    .map(|change| change.value())
+                    .collect();
 
-                    mismatches.push(DiffMismatch {
-                        original_start_line: old_index,
-                        original_end_line: old_index + old_len - 1,
-                        expected_start_line: new_index,
-                        expected_end_line: new_index,
-                        original,
-                        expected: "".to_string(),
-                    })
-                }
-                DiffOp::Insert {
-                    old_index,
-                    new_index,
-                    new_len,
-                } => {
-                    // Collect every inserted line, not only the first one
-                    let expected = text_diff
-                        .iter_changes(&op)
-                        .map(|change| change.value())
-                        .collect();
+                mismatches.push(DiffMismatch {
+                    original_start_line: old_index,
+                    original_end_line: old_index + old_len - 1,
+                    expected_start_line: new_index,
+                    expected_end_line: new_index + new_len - 1,
+                    original,
+                    expected,
+                });
+            }
+            DiffOp::Delete { old_len, .. } => {
+                let (old_index, new_index) = (old_position, new_position);
+                old_position += old_len;
+                // Collect every deleted line, not only the first one
+                let original = text_diff
+                    .iter_changes(&op)
+                    .map(|change| change.value())
+                    .collect();
 
-                    mismatches.push(DiffMismatch {
-                        original_start_line: old_index,
-                        original_end_line: old_index,
-                        expected_start_line: new_index,
-                        expected_end_line: new_index + new_len - 1,
-                        original: "".to_string(),
-                        expected,
-                    })
-                }
-                DiffOp::Equal { .. } => (), // Don't record an equals diff, its unnecessary
+                mismatches.push(DiffMismatch {
+                    original_start_line: old_index,
+                    original_end_line: old_index + old_len - 1,
+                    expected_start_line: new_index,
+                    expected_end_line: new_index,
+                    original,
+                    expected: "".to_string(),
+                })
+            }
+            DiffOp::Insert { new_len, .. } => {
+                let (old_index, new_index) = (old_position, new_position);
+                new_position += new_len;
+                // Collect every inserted line, not only the first one
+                let expected = text_diff
+                    .iter_changes(&op)
+                    .map(|change| change.value())
+                    .collect();
+
+                mismatches.push(DiffMismatch {
+                    original_start_line: old_index,
+                    original_end_line: old_index,
+                    expected_start_line: new_index,
+                    expected_end_line: new_index + new_len - 1,
+                    original: "".to_string(),
+                    expected,
+                })
+            }
+            // Don't record an equals diff, its unnecessary
+            DiffOp::Equal { len, .. } => {
+                old_position += len;
+                new_position += len;
             }
         }
     }
